@@ -1076,7 +1076,8 @@ def run(ctx):
     scoped = [p for p in cand if len(p["containers"]) > 1 or p["containers"][0]["path"]]
     plain = [p for p in cand if not (len(p["containers"]) > 1 or p["containers"][0]["path"])]
     nfull = (300 if thorough else 22) * (3 if ctx.broken else 1)
-    pick = scoped[:: max(1, len(scoped) // nfull)][:nfull] + plain[:: max(1, len(plain) // nfull)][:nfull]
+    pick = ([p for p in progs[:ncorpus] if in_domain(p)] +
+            scoped[:: max(1, len(scoped) // nfull)][:nfull] + plain[:: max(1, len(plain) // nfull)][:nfull])
     # make sure the scanners see Python and Lua tables as well
     extra = []
     for p in pick[:: max(1, len(pick) // (40 if thorough else 6))]:
